@@ -414,7 +414,8 @@ Section MomScales.
       let ems := tol * (2 * smu) in                      (* error bound of mu_sum *)
       let ms := Qabs (mu_sum ny nx a) in
       [ 4 * n * pe; 4 * n * pe * l; 4 * n * pe * l; sc; sc; 2 * smu; 2 * smu; smu;
-        if Qle_bool ms ems then -1 else 16 * smu / (ms - ems) + 4 ].
+        (* M00 = 0 exactly (exact sky): every central moment is NaN on both sides, compared in kind *)
+        if Qeq_bool m 0 then 4 else if Qle_bool ms ems then -1 else 16 * smu / (ms - ems) + 4 ].
   Definition mom_unconstrained : bool := existsb (fun q => Qlt_bool q 0) mom_scales.
 End MomScales.
 
